@@ -1,17 +1,26 @@
 #!/usr/bin/env python3
-"""prints the markdown table of /verif/seeded/*/meta.json for DESIGN.md §11"""
-import json, glob, os
+"""prints the markdown table of /verif/seeded/*/meta.json (DESIGN.md §11); --full = untruncated (seeded/README.md)"""
+import json, glob, os, sys
+full = "--full" in sys.argv
+def cut(s, n):
+    s = (s or "").replace("|", "/").replace("\n", " ")
+    return s if full or len(s) <= n else s[:n - 1].rstrip() + "…"
 rows = []
 for d in sorted(glob.glob("/verif/seeded/*/")):
     m = json.load(open(d + "meta.json"))
     sid = os.path.basename(d.rstrip("/"))
-    first = m.get("first_run") or {}
-    now = m.get("checks_quick", {})
     prop = m.get("property")
-    fr = first.get(prop, now.get(prop, "?")) if first else now.get(prop, "?")
-    others = ", ".join(f"{k}: {v}" for k, v in sorted(now.items()) if k != prop)
-    rows.append((sid, prop, (m.get("summary") or "").replace("|", "/"), (m.get("needs_to_manifest") or "").replace("|", "/"), fr, now.get(prop, "?"), others, (m.get("strengthening") or "").replace("|", "/")))
-print("| seeded change | property | what it does | first run | now (quick) | other checks | strengthening |")
+    now = m.get("checks_quick", {})
+    first = m.get("first_run") or {}
+    fr = first.get(prop) or ("caught" if now.get(prop) == "caught" and not m.get("strengthening") else now.get(prop, "?"))
+    if m.get("strengthening") and prop in first: fr = first[prop]
+    others = ", ".join(f"{k} {v}" for k, v in sorted(now.items()) if k != prop)
+    rows.append((sid, prop, cut(m.get("summary"), 170), fr, now.get(prop, "?"), others, cut(m.get("strengthening"), 230)))
+print("| seeded change | prop | what it does | first run | now | other checks | what was strengthened |")
 print("|---|---|---|---|---|---|---|")
 for r in rows:
-    print(f"| `{r[0]}` | {r[1]} | {r[2]} Needs: {r[3]} | {r[4]} | {r[5]} | {r[6]} | {r[7]} |")
+    print("| `%s` | %s | %s | %s | %s | %s | %s |" % r)
+n = len(rows); fm = sum(1 for r in rows if r[3] == "missed"); nc = sum(1 for r in rows if r[4] == "caught")
+print()
+print(f"{n} seeded changes; {n - fm} caught by the property's own check on the first run, {fm} missed at first; after strengthening {nc} are caught by their own check"
+      + (f" and {n - nc} by another property's check." if n != nc else "."))
